@@ -99,6 +99,12 @@ Definition utf8_encode (c : N) : list N :=
 
 Definition scalar_ok (c : N) : bool := (c <? 55296) || ((57344 <=? c) && (c <? 1114112)).
 
+(* ESC and the C1 sequence introducers DCS, SOS, CSI, OSC, PM, APC are never written as characters: the
+   encoder writes U+FFFD in their place (encoder.rs `Char(c)`, crate commit 73d8d1c) *)
+Definition char_unsafe (c : N) : bool :=
+  (c =? 27) || (c =? 144) || (c =? 152) || (c =? 155) || (c =? 157) || (c =? 158) || (c =? 159).
+Definition char_out (c : N) : N := if char_unsafe c then 65533 else c.
+
 Inductive command :=
 | CmdFace (f : face)
 | CmdFaceModify (m : face_modify)
@@ -110,6 +116,6 @@ Definition encode (cmd : command) : list N :=
   match cmd with
   | CmdFace f => enc_face f
   | CmdFaceModify m => enc_modify m
-  | CmdChar c => utf8_encode c
+  | CmdChar c => utf8_encode (char_out c)
   | CmdRaw bs => bs
   end.
